@@ -13,7 +13,7 @@ PROP = "C10"
 LEVEL = "exploration"
 SHARDS = {"quick": 2, "thorough": 16}
 THOROUGH_DEPTH = 30      # thorough tier = this many times the base thorough budget (VERIF_DEPTH overrides)
-ROUTES = ["rpy/Quaternion", "rpy/QuaternionArray", "rpy/free", "rpy/Quaternion.from_rpy", "rpy/Quaternion.from_angles", "rpy/QuaternionArray.from_rpy", "rpy/cardan", "rpy/cardan[in_deg]", "rpy/Quaternion(angles=)", "rpy/QuaternionArray(angles=)", "axang/Quaternion", "axang/free", "axang/DCM",
+ROUTES = ["rpy/Quaternion", "rpy/QuaternionArray", "rpy/free", "rpy/Quaternion.from_rpy", "rpy/Quaternion.from_angles", "rpy/QuaternionArray.from_rpy", "rpy/cardan", "rpy/cardan[in_deg]", "rpy/QuaternionArray[row between vertical-pitch rows]", "rpy/Quaternion(angles=)", "rpy/QuaternionArray(angles=)", "axang/Quaternion", "axang/free", "axang/DCM",
           "explog/versor", "explog/nonversor", "power", "euler/DCM(euler=)", "euler/rot_seq", "euler/DCM(rpy=)",
           "euler/DCM(x,y,z)", "euler/rotation", "DCM.log", "explog/reused object"]
 ANG_REGIONS = ["generic", "tiny", "small", "nearpi", "band", "zero"]
@@ -113,6 +113,13 @@ def check_rpy(case, ctx):
         "rpy/Quaternion(angles=)": (lambda h: np.asarray(ahrs.Quaternion(angles=h)), lambda q: np.asarray(ahrs.Quaternion(q.copy()).to_angles())),
         "rpy/QuaternionArray(angles=)": (lambda h: np.asarray(ahrs.QuaternionArray(angles=h))[0], lambda q: np.asarray(ahrs.QuaternionArray(q.copy()[None]).to_angles())[0]),
     }
+    # an in-domain row keeps its angles whatever else is in the batch: the array class converts it back between two rows standing exactly at
+    # +-90 deg pitch (outside the property's domain themselves; what they come back as is not judged)
+    sq_ = np.sqrt(0.5)
+    VERT = np.array([[sq_, 0.0, sq_, 0.0], [0.5, 0.5, 0.5, -0.5], [sq_, 0.0, -sq_, 0.0], [0.5, -0.5, -0.5, -0.5]])
+    kv = int(abs(float(rpy[0])) * 1e6) % 4
+    routes["rpy/QuaternionArray[row between vertical-pitch rows]"] = (lambda h: np.asarray(ahrs.QuaternionArray(rpy=h))[0],
+                                                                     lambda q: np.asarray(ahrs.QuaternionArray(np.array([VERT[kv], q, VERT[(kv + 1) % 4]])).to_angles())[1])
     for r, (fwd, back) in routes.items():
         # the array the caller hands over and keeps: the round trip is judged against it afterwards
         held = np.degrees(rpy) if "in_deg" in r else (A3.copy() if "QuaternionArray" in r else rpy.copy())
